@@ -987,3 +987,19 @@ for _p, _acts in (('C07', ['block']), ('C08', ['block', 'undoblock'])):
     PLAN[_p]['stages'] = (lambda f, a: (lambda tier, seed: f(tier, seed) + [light_sparse(tier, a)]))(PLAN[_p]['stages'], _acts)
     PLAN[_p]['rule'] += (' Stage light_wide7: wide configuration with every state of 7 (thorough: 7-8) leaves - any live set, at most two held '
                          'leaves - as initial state (several empty roots at once, which the dense wide configuration does not have).')
+
+
+# --------------------------------------------------------------------------- refused calls leave no lock behind (C12); effect schedules also under C03
+_c12r = PLAN['C12']['stages']
+PLAN['C12']['stages'] = lambda tier, seed: _c12r(tier, seed) + [
+    partial('partial_refused', ['mod', 'vrem', 'prune', 'undo', 'badmod', 'badvrem', 'badundo'], 3 if tier == 'quick' else 4, 2, stack=1, und=1)]
+PLAN['C12']['rule'] += (' Stage partial_refused: after every refused call of spec/Partial.tla (a block naming a leaf that is not remembered, a '
+                        'remembering verification with a replaced hash, an Undo whose proof lacks its hashes) a reader and a writer must still be '
+                        'served (no lock left behind on an error path).')
+_c03e = PLAN['C03']['stages']
+PLAN['C03']['stages'] = lambda tier, seed: _c03e(tier, seed) + [
+    partial('lock_effect', ['mod', 'vrem', 'ingest', 'prune', 'undo'], 3 if tier == 'quick' else 4, 2, stack=1, und=1, fam='lockrun',
+            x='effectonly=1', harness_workers=2, timeout=900 if tier == 'quick' else 7200)]
+PLAN['C03']['rule'] += (' Stage lock_effect: remembering verifications with a real effect race with every writer operation of spec/Partial.tla in '
+                        'both orders (suspended through the hook points); results and final forest must be those of one of the two sequential '
+                        'orders - a verification whose check and store are not one atomic step leaves hashes verified against another state.')
